@@ -522,6 +522,73 @@ func ruleReorgReachesNewTip(c *report.Ctx) {
 			cell = st.Addr
 		}
 	}
+	// tipHeight: v is the height of the wallet's tip as handed to reorg, possibly counted down
+	var tipHeight func(v ssa.Value, seen map[ssa.Value]bool) bool
+	tipHeight = func(v ssa.Value, seen map[ssa.Value]bool) bool {
+		if seen[v] {
+			return true
+		}
+		seen[v] = true
+		switch x := v.(type) {
+		case *ssa.Phi:
+			for _, e := range x.Edges {
+				if !tipHeight(e, seen) {
+					return false
+				}
+			}
+			return len(x.Edges) > 0
+		case *ssa.BinOp:
+			if _, isK := constInt(x.Y); isK && x.Op == token.SUB {
+				return tipHeight(x.X, seen)
+			}
+		case *ssa.Field:
+			return x.X == ssa.Value(cur) && an.FName(derefStructT(x.X.Type()), x.Field) == "Height"
+		case *ssa.UnOp:
+			if x.Op != token.MUL {
+				return false
+			}
+			if r := an.ResolveCell(x); r != ssa.Value(x) {
+				return tipHeight(r, seen)
+			}
+			fa, ok := x.X.(*ssa.FieldAddr)
+			if !ok || an.FName(derefStructT(fa.X.Type()), fa.Field) != "Height" {
+				// a local counter seeded from the tip's height and only ever counted down
+				if a, isAlloc := x.X.(*ssa.Alloc); isAlloc && a.Referrers() != nil {
+					n := 0
+					for _, r := range *a.Referrers() {
+						if st, isSt := r.(*ssa.Store); isSt && st.Addr == ssa.Value(a) {
+							n++
+							if !tipHeight(st.Val, seen) {
+								return false
+							}
+						}
+					}
+					return n > 0
+				}
+				return false
+			}
+			if fa.X == cell {
+				return true
+			}
+			if c2, isAlloc := fa.X.(*ssa.Alloc); isAlloc && c2.Referrers() != nil {
+				for _, r := range *c2.Referrers() {
+					if st, isSt := r.(*ssa.Store); isSt && st.Addr == ssa.Value(c2) {
+						v := st.Val
+						if cv, isCv := v.(*ssa.ChangeType); isCv {
+							v = cv.X
+						}
+						if v == ssa.Value(cur) {
+							return true
+						}
+						if ld, isLd := v.(*ssa.UnOp); isLd && ld.Op == token.MUL && ld.X == cell {
+							return true
+						}
+					}
+				}
+			}
+		}
+		return false
+	}
 	isTipHash := func(v ssa.Value) bool {
 		// load of <currentBest>.Hash, or a field read of the parameter value
 		switch x := v.(type) {
@@ -535,9 +602,11 @@ func ruleReorgReachesNewTip(c *report.Ctx) {
 			}
 			// the wallet's own block at a height, as read from the sync store in this transaction (what the tip is
 			// re-read from after the rewind)
+			// — at the tip's own height (the tip's height, or that height counted down by the rewind loop, every
+			// step of which disconnects a block): the block at the announced block's height is not the tip
 			if sb := p.Fn(pkgTxmgr, "SyncStore", "SyncedBlock"); sb != nil {
 				if ex, isEx := soleNonNil(fa.X).(*ssa.Extract); isEx && ex.Index == 0 {
-					if call, isCall := ex.Tuple.(*ssa.Call); isCall && call.Call.StaticCallee() == sb {
+					if call, isCall := ex.Tuple.(*ssa.Call); isCall && call.Call.StaticCallee() == sb && len(call.Call.Args) >= 3 && tipHeight(call.Call.Args[2], map[ssa.Value]bool{}) {
 						return true
 					}
 				}
